@@ -104,6 +104,14 @@ Theorem C11_source_counters : forall g gg ind outd s v, rep_graph gg g -> rep_di
   CFOrientation_get_out_degree gg outd v = (if Nat.ltb v (nv g) then PyOk (nthZ (outc s) v) else PyExn tt).
 Proof. exact get_in_out_degree_refines. Qed.
 Print Assumptions C11_source_counters.
+(* the readers of single edges, translated from the CURRENT source (results annotated Optional[...] become option): they raise exactly when a, b is not an edge,
+   and otherwise report the recorded state of the edge as seen from a - None while it is unoriented, the pair (source, sink) / whether a is its source / its sink *)
+Theorem C11_source_edge_readers : forall g gg oo s, rep_graph gg g -> rep_orient oo g s -> forall a b,
+  CFOrientation_get_orientation gg oo a b = (if edge_ok g a b then PyOk (if dir_at s a b =? 0 then None else if dir_at s a b =? 1 then Some (a, b) else Some (b, a)) else PyExn tt) /\
+  CFOrientation_is_source gg oo a b = (if edge_ok g a b then PyOk (if dir_at s a b =? 0 then None else Some (dir_at s a b =? 1)) else PyExn tt) /\
+  CFOrientation_is_sink gg oo a b = (if edge_ok g a b then PyOk (if dir_at s a b =? 0 then None else Some (dir_at s a b =? 2)) else PyExn tt).
+Proof. intros g gg oo s Hg Ho a b. split; [apply get_orientation_refines; assumption|]. split; [apply is_source_refines; assumption|apply is_sink_refines; assumption]. Qed.
+Print Assumptions C11_source_edge_readers.
 Example C11_source_nonvacuous : let g := [[0;2;1];[2;0;1];[1;1;0]] in
   let oo := [(0%nat, [(1%nat, 0); (2%nat, 0)]); (1%nat, [(0%nat, 0); (2%nat, 0)]); (2%nat, [(0%nat, 0); (1%nat, 0)])] in
   match CFOrientation_set_orientation oo (dict_of_graph g) (dict_of_div [0;0;0]) (dict_of_div [0;0;0]) false false 1%nat 0%nat 1 with
